@@ -42,11 +42,13 @@ const (
 	kNotDir                    // a path component is a regular file (ENOTDIR)
 	kTooLong                   // file name of 300 bytes (ENAMETOOLONG)
 	kParentMissing             // parent directory does not exist (file missing, cannot be written)
+	kValidLegacy               // PEM private key in the older 96-byte encoding (key followed by a redundant copy of the public key)
+	kLegacyBadPub              // the same, but the redundant public key differs from the key's own public half
 	nKinds
 )
 
 var kindName = [...]string{"missing", "empty", "garbage", "pem-wrong-type", "pem-public-key", "pem-private-bad-body", "valid-key",
-	"valid-key+trailing-garbage", "junk+valid-key", "directory", "dangling-symlink", "symlink-loop", "parent-is-file", "name-too-long", "parent-missing"}
+	"valid-key+trailing-garbage", "junk+valid-key", "directory", "dangling-symlink", "symlink-loop", "parent-is-file", "name-too-long", "parent-missing", "valid-key-legacy-96-byte-encoding", "legacy-96-byte-encoding-with-inconsistent-public-key"}
 
 // expectation classes for a load
 const (
@@ -163,7 +165,7 @@ func (m model) want() int {
 		return wantKeyNew
 	case kValid:
 		return wantKeySame
-	case kValidTrailing, kJunkThenValid:
+	case kValidTrailing, kJunkThenValid, kValidLegacy, kLegacyBadPub:
 		return wantEither
 	}
 	return wantErr
@@ -211,6 +213,13 @@ func (w *world) setup(k kind) error {
 		return os.WriteFile(w.path, append(refPrivPEM(w.k1.Std), garbage...), 0o600)
 	case kJunkThenValid:
 		return os.WriteFile(w.path, append([]byte("# my key\n"), refPrivPEM(w.k1.Std)...), 0o600)
+	case kValidLegacy, kLegacyBadPub:
+		data := append(append([]byte{}, w.k1.Std...), w.k1.Std[32:]...)
+		if k == kLegacyBadPub {
+			data[64+5] ^= 0x40
+		}
+		body := append([]byte{0x08, 0x01, 0x12, 0x60}, data...)
+		return os.WriteFile(w.path, pem.EncodeToMemory(&pem.Block{Type: "LIBP2P PRIVATE KEY", Bytes: body}), 0o600)
 	case kDir:
 		return os.Mkdir(w.path, 0o700)
 	case kDangling:
@@ -236,7 +245,7 @@ func (w *world) setup(k kind) error {
 
 func initialModel(k kind, k1 string) model {
 	switch k {
-	case kValid, kValidTrailing, kJunkThenValid:
+	case kValid, kValidTrailing, kJunkThenValid, kValidLegacy, kLegacyBadPub:
 		return model{k, k1}
 	}
 	return model{kind: k}
